@@ -158,8 +158,9 @@ def run(sel, tier, all_checks):
 
 
 def write_md(results):
-    lines = ["# Seeded changes: which check catches which change", "",
-             "| change | title | manifests when | quick | thorough |", "|---|---|---|---|---|"]
+    harmless = os.path.basename(SEEDED) == "harmless"
+    lines = ["# Behaviour-preserving rewrites: a VIOLATION here is a false alarm" if harmless else "# Seeded changes: which check catches which change", "",
+             "| change | title | %s | quick | thorough |" % ("kind" if harmless else "manifests when"), "|---|---|---|---|---|"]
     for key in sorted(results):
         pid, name = key.split("/")
         meta = {}
@@ -172,10 +173,14 @@ def write_md(results):
         def cell(t):
             if ("detected_" + t) not in r:
                 return "not run"
+            if harmless:
+                if not r["detected_" + t]:
+                    return "quiet"
+                return "FALSE ALARM WITH AN INPUT" if r.get("with_failing_input_" + t) else "alarm (tie broken, no-failing-input-found)"
             if not r["detected_" + t]:
                 return "MISSED"
             return "caught (failing input)" if r.get("with_failing_input_" + t) else "caught (no-failing-input-found)"
-        lines.append("| %s | %s | %s | %s | %s |" % (key, str(meta.get("title", "")).replace("|", "/"), str(meta.get("manifests_when", "")).replace("|", "/")[:160],
+        lines.append("| %s | %s | %s | %s | %s |" % (key, str(meta.get("title", "")).replace("|", "/"), str(meta.get("kind" if harmless else "manifests_when", "")).replace("|", "/")[:160],
                                                   cell("quick"), cell("thorough")))
     open(os.path.join(SEEDED, "RESULTS.md"), "w").write("\n".join(lines) + "\n")
 
